@@ -173,7 +173,18 @@ def inputs_unchanged(exe, pairs, verdict, pid):
     cases = []
     for i, (b, o) in enumerate(pairs):
         root = core.ROOT + "/u%d" % (i % 32)
-        s = build_obj(1, b, 3, root + "/b.conf", nov=True) + build_obj(2, o, 3, root + "/o.conf", nov=True)
+        s = ["rm %s" % hx(root)]
+        for h, lst, nm in ((1, b, "b"), (2, o, "o")):
+            # how the input object came to be: econf_readFile / the result of a layered read that consulted this one file / a
+            # member of a history (objects of the last two kinds are marked for release by the library's own merge)
+            how = (i + h) % 3
+            d = "%s/%s/etc" % (root, nm)
+            bo = build_obj(h, lst, 3, d + "/f.conf", nov=True)
+            if how == 1:
+                bo[-1] = "readdirs %d %s %s %s %s x3d x23" % (h, hx("%s/%s/usr" % (root, nm)), hx(d), hx("f"), hx("conf"))
+            elif how == 2:
+                bo[-1] = "readhist %d %s %s %s %s x3d x23" % (h, hx("%s/%s/usr" % (root, nm)), hx(d), hx("f"), hx("conf"))
+            s += bo
         s += ["dumpx 1", "dumpx 2", "merge 3 1 2", "dumpx 1", "dumpx 2", "get String 2 - x78", "get Int 2 - x78", "free 3", "free 1", "free 2"]
         cases.append((i, s))
     res = core.run_cases(exe, cases)
